@@ -176,6 +176,44 @@ fn draw_data(c: &mut Case, k: usize, mixed: bool) -> Data {
     Data { x, yi, labels, k, layout, label_kind, scales, shifts, lattice }
 }
 
+/// small separable data sets on an integer lattice (6..12 rows, 1..2 features, entries = integer in
+/// -10..10 times one multiplier for the whole data set, classes = intervals of the first feature)
+fn draw_lattice(c: &mut Case, k: usize) -> Data {
+    let rng = &mut c.rng;
+    let p = rng.us(1, 2);
+    let mult = *rng.pick(&[0.1, 0.5, 1.0, 2.0, 5.0, 10.0]);
+    for _ in 0..200 {
+        let n = rng.us(6, 12);
+        let u = Mat::from_fn(n, p, |_, _| rng.int(-10, 10) as f64);
+        // k-1 distinct half-integer thresholds on the first feature
+        let mut th: Vec<f64> = (0..k - 1).map(|_| rng.int(-8, 7) as f64 + 0.5).collect();
+        th.sort_by(|a, b| a.partial_cmp(b).unwrap_or(std::cmp::Ordering::Equal));
+        th.dedup();
+        if th.len() != k - 1 {
+            continue;
+        }
+        let up = rng.bool(0.5);
+        let yi: Vec<usize> = (0..n)
+            .map(|i| {
+                let cls = th.iter().filter(|t| u.at(i, 0) > **t).count();
+                if up {
+                    cls
+                } else {
+                    k - 1 - cls
+                }
+            })
+            .collect();
+        if (0..k).any(|j| !yi.contains(&j)) {
+            continue;
+        }
+        let (labels, label_kind) = draw_labels(rng, k);
+        let x = u.scale(mult);
+        return Data { x, yi, labels, k, layout: "lattice-separable", label_kind, scales: vec![mult; p], shifts: vec![0.0; p], lattice: true };
+    }
+    // (practically unreachable) fall back to the generic generator
+    draw_data(c, k, false)
+}
+
 fn scale_bucket(s: f64) -> &'static str {
     if s < 1.0 {
         "scale:1e-1..1"
@@ -618,8 +656,8 @@ fn check_predictions(c: &mut Case, d: &Data, ft: &Fitted, sg: &str) {
 
 fn logistic_case(c: &mut Case, k: usize, mode: &str) {
     let mixed = mode == "mixed";
-    let d = draw_data(c, k, mixed);
-    let alpha = if mode == "alpha0" { 0.0 } else { c.rng.logu(1e-2, 10.0) };
+    let d = if mode == "lattice0" { draw_lattice(c, k) } else { draw_data(c, k, mixed) };
+    let alpha = if mode == "alpha0" || mode == "lattice0" { 0.0 } else { c.rng.logu(1e-2, 10.0) };
     describe_data(c, if mixed { "logistic-fit(mixed feature scales, informational)" } else { "logistic-fit" }, &d, alpha);
     c.bucket(if alpha == 0.0 {
         "alpha:0"
@@ -722,6 +760,10 @@ fn lr_multi(c: &mut Case) {
 fn lr_alpha0(c: &mut Case) {
     let k = c.rng.us(2, 4);
     logistic_case(c, k, "alpha0");
+}
+fn lr_alpha0_lattice(c: &mut Case) {
+    let k = if c.rng.bool(0.7) { 2 } else { 3 };
+    logistic_case(c, k, "lattice0");
 }
 fn lr_mixed(c: &mut Case) {
     let k = c.rng.us(2, 4);
@@ -1001,7 +1043,7 @@ fn lbfgs_quad(c: &mut Case) {
 fn main() {
     runner::main(Spec {
         property: "C09",
-        rule: "logistic families: seeded data sets with 6..100 rows, 1..6 features (one scale per data set log-uniform in [0.1,100] × per-feature jitter in [0.5,2], shift up to 5 scale units), 2..4 classes with arbitrary distinct label values (0..k-1, negative, non-contiguous, fractional, any magnitude), layouts overlap / moderate / separable (unit balls around centres >= 4 apart), optional lattice features with duplicates, alpha log-uniform in [1e-2,10] (families lr_binary, lr_multi) or alpha = 0 (lr_alpha0: monotonicity and predictions only); every fit whose oracles were evaluated is non-trivial; lr_mixed (independent per-feature scales spanning >= 30x) is informational, never non-trivial, no verdict. lbfgs_quad: SPD quadratics of dimension 1..12, condition number <= 1e4 measured by a Jacobi eigen-solver, overall scale in [1e-2,1e2], minimiser magnitude 0 or [1e-2,1e2], starts zero / random / around the minimiser / integer, both interpolation orders; non-trivial when the start is not already stationary (‖g0‖∞ >= 1e-8). distinct = hash of the materialised input (X, y, alpha) resp. (A, b, x0, order)",
+        rule: "logistic families: seeded data sets with 6..100 rows, 1..6 features (one scale per data set log-uniform in [0.1,100] × per-feature jitter in [0.5,2], shift up to 5 scale units), 2..4 classes with arbitrary distinct label values (0..k-1, negative, non-contiguous, fractional, any magnitude), layouts overlap / moderate / separable (unit balls around centres >= 4 apart), optional lattice features with duplicates, alpha log-uniform in [1e-2,10] (families lr_binary, lr_multi) or alpha = 0 (lr_alpha0: monotonicity and predictions only; lr_alpha0_lattice: the same on small separable integer-lattice sets, 6..12 rows, 1..2 features, entries integer in -10..10 times one multiplier in {0.1,0.5,1,2,5,10}, classes = intervals of the first feature); every fit whose oracles were evaluated is non-trivial; lr_mixed (independent per-feature scales spanning >= 30x) is informational, never non-trivial, no verdict. lbfgs_quad: SPD quadratics of dimension 1..12, condition number <= 1e4 measured by a Jacobi eigen-solver, overall scale in [1e-2,1e2], minimiser magnitude 0 or [1e-2,1e2], starts zero / random / around the minimiser / integer, both interpolation orders; non-trivial when the start is not already stationary (‖g0‖∞ >= 1e-8). distinct = hash of the materialised input (X, y, alpha) resp. (A, b, x0, order)",
         assumptions: vec![
             "objective convention: NLL + (alpha/2)·‖W‖² with unpenalised intercepts (the convention under which the unchanged code is stationary); two classes: the larger label is the positive class",
             "'features scaled 1e-1..1e2' is read as one scale per data set with per-feature jitter in [0.5,2]; data sets mixing scales 0.1 and 100 are run as informational only (no verdict)",
@@ -1014,6 +1056,7 @@ fn main() {
             Family::new("lr_binary", 2500, 50000, lr_binary),
             Family::new("lr_multi", 1500, 30000, lr_multi),
             Family::new("lr_alpha0", 1500, 30000, lr_alpha0),
+            Family::new("lr_alpha0_lattice", 400, 8000, lr_alpha0_lattice),
             Family::new("lr_mixed", 200, 4000, lr_mixed),
             Family::new("lbfgs_quad", 5000, 100000, lbfgs_quad),
         ],
